@@ -10,6 +10,8 @@ MCHandlerOf == [c \in MCCTypes |-> CASE c \in {"json", "json_charset", "vnd_json
                                      [] c \in {"form", "form_charset"} -> "form"
                                      [] OTHER -> "none"]
 MCBodyKinds == {"empty", "valid", "truncated", "badenc"}
+(* PEP 3333 needs CONTENT_LENGTH to bound wsgi.input (wsgi.input_terminated is out of scope) *)
+MCFramings == [s \in {"wsgi", "asgi"} |-> IF s = "wsgi" THEN {"length"} ELSE {"length", "chunked"}]
 
 Keep == UNCHANGED h
 Log  == h' = Append(h, last')
@@ -23,7 +25,7 @@ AMediaProperty   == Len(h) < Depth /\ MediaProperty /\ Log
 ANext == AGetMedia \/ AGetMediaDefault \/ AMediaProperty
 MCInit == Init /\ h = <<>>
 MCNeverReparsed == [][cache.k # "unset" => (cache' = cache /\ parses' = parses /\ consumed' = consumed /\ ~last'.touched)]_<<vars, h>>
-Emit == (Len(h) = Depth) => PrintT(ToJson([stack |-> stack, ctype |-> ctype, handler |-> Handler, body |-> body, ev |-> h]))
+Emit == (Len(h) = Depth) => PrintT(ToJson([stack |-> stack, framing |-> framing, ctype |-> ctype, handler |-> Handler, body |-> body, ev |-> h]))
 
 (* ---- document shapes (JSON): [k: "s" scalar of category c | "l" list | "o" object, c, items] ---- *)
 S(c)     == [k |-> "s", c |-> c, items |-> <<>>]
@@ -38,6 +40,10 @@ D2       == {Node(k, it) : k \in {"l", "o"}, it \in (SeqsLe(D1small \cup {S(7), 
 FCats    == 0..4
 FVals    == {S(c) : c \in FCats} \cup {Node("l", <<S(a), S(b)>>) : a, b \in {0, 1, 3}}
 Forms    == SeqsLe(FVals, 2)
+(* top-level scalars and empty containers: the harness instantiates these with EVERY pool value and
+   sends them as bodies of their own (null, false, 0, "", [], {} are the falsy documents) *)
+Tops     == D0 \cup {Node("l", <<>>), Node("o", <<>>)}
 ASSUME PrintT(ToJson([docs |-> D0 \cup D1 \cup D2]))
+ASSUME PrintT(ToJson([tops |-> Tops]))
 ASSUME PrintT(ToJson([forms |-> Forms]))
 ==============================================================================
